@@ -93,12 +93,39 @@ pub fn run_case_starve(m: usize, k: usize, rng: &mut Rng) -> (String, Vec<String
     run_case_inner(&prog, rng, None, m, true)
 }
 
+/// Stale-predicate choreography: the queue holds [1, 100]; the victim's try_pop_if(|x| x < 50) has evaluated its
+/// predicate on 1 when the thief pops 1.  The victim must not remove 100 (its predicate rejects it).
+pub fn run_case_stale_predicate(rng: &mut Rng) -> (String, Vec<String>) {
+    let prog: Vec<Vec<Op>> = vec![vec![Op::Push(1), Op::Push(100)], vec![Op::PopIf(50)], vec![Op::Pop]];
+    run_case_inner(&prog, rng, None, 2, true)
+}
+
+/// Tail-lag choreography: the producer has linked its node (site 33) but not yet swung the tail (site 34) when the
+/// consumer removes that node; the consumer finds head == tail and tries to help (sites 38/39, 43/44) just after the
+/// producer has swung the tail itself, so the helping CAS fails.  The element must still be returned.
+pub fn run_case_tail_lag(conditional: bool, rng: &mut Rng) -> (String, Vec<String>) {
+    let prog: Vec<Vec<Op>> = vec![vec![Op::Push(7)], vec![if conditional { Op::PopIf(50) } else { Op::Pop }]];
+    run_case_full(&prog, rng, None, 0, Director::TailLag)
+}
+
 /// `prefill`: thread 0 runs alone until it has completed that many operations
 pub fn run_case_prefill(prog: &[Vec<Op>], rng: &mut Rng, script: Option<Vec<usize>>, prefill: usize) -> (String, Vec<String>) {
     run_case_inner(prog, rng, script, prefill, false)
 }
 
+#[derive(Clone, Copy, PartialEq)]
+enum Director {
+    None,
+    Starve,
+    TailLag,
+}
+
 fn run_case_inner(prog: &[Vec<Op>], rng: &mut Rng, script: Option<Vec<usize>>, prefill: usize, starve: bool) -> (String, Vec<String>) {
+    run_case_full(prog, rng, script, prefill, if starve { Director::Starve } else { Director::None })
+}
+
+fn run_case_full(prog: &[Vec<Op>], rng: &mut Rng, script: Option<Vec<usize>>, prefill: usize, director: Director) -> (String, Vec<String>) {
+    let starve = director == Director::Starve;
     let collector = Collector::new();
     let q = Arc::new(VQueue::new());
     let sentinel = q.head_addr();
@@ -170,6 +197,27 @@ fn run_case_inner(prog: &[Vec<Op>], rng: &mut Rng, script: Option<Vec<usize>>, p
             };
             sched::run_observed(bodies, enabled, 100_000, &mut chooser)
         }
+        None if director == Director::TailLag => {
+            let mut chooser = move |r: &[usize], _k: usize, trace: &[sched::Step]| {
+                let pick = |t: usize| r.iter().position(|&x| x == t);
+                let first = |st: &sched::Step| st.obs.first().map(|o| o.0);
+                let p_linked = trace.iter().any(|st| st.tid == 0 && first(st) == Some(33));
+                let p_swung = trace.iter().any(|st| st.tid == 0 && first(st) == Some(34));
+                // the consumer has loaded the tail (site 38 / 43 executed) and now waits at its helping CAS
+                let c_at_help = trace.iter().rev().find(|st| st.tid == 1).map(|st| matches!(first(st), Some(38) | Some(43))).unwrap_or(false);
+                if !p_linked {
+                    return pick(0).or(pick(1)).unwrap_or(0);
+                }
+                if !p_swung {
+                    if c_at_help {
+                        return pick(0).or(pick(1)).unwrap_or(0); // the producer swings the tail now
+                    }
+                    return pick(1).or(pick(0)).unwrap_or(0);
+                }
+                pick(1).or(pick(0)).unwrap_or(0)
+            };
+            sched::run_observed(bodies, enabled, 100_000, &mut chooser)
+        }
         None if prefill > 0 => {
             let mut r2 = Rng::new(rng.next());
             let mut chooser = move |r: &[usize], _k: usize, trace: &[sched::Step]| {
@@ -215,6 +263,61 @@ fn run_case_inner(prog: &[Vec<Op>], rng: &mut Rng, script: Option<Vec<usize>>, p
     }
     let _ = &mut pushed_order;
     monitor.extend(history_monitor(&res.trace));
+    // conservation: what was pushed (push completed) and never returned by a pop must still be in the queue
+    {
+        let h = collector.register();
+        let g = h.pin();
+        let mut left: Vec<u64> = vec![];
+        while let Some(v) = q.try_pop(&g) {
+            left.push(v);
+            if left.len() > 100_000 {
+                break;
+            }
+        }
+        drop(g);
+        let mut popped: Vec<u64> = vec![];
+        let mut pushed_done: Vec<u64> = vec![];
+        for st in &res.trace {
+            let mut cur_push: Option<u64> = None;
+            for &(site, a, b) in &st.obs {
+                if site == 1 && a == 0 {
+                    cur_push = Some(b as u64);
+                }
+                if site == 2000 && a == 1 {
+                    popped.push(b as u64);
+                }
+                let _ = cur_push;
+            }
+        }
+        // completed pushes: a `1 0 v` observation later followed (same thread) by `2000 2 0`
+        let nt = prog.len();
+        for t in 0..nt {
+            let mut pending: Option<u64> = None;
+            for st in res.trace.iter().filter(|st| st.tid == t) {
+                for &(site, a, b) in &st.obs {
+                    if site == 1 && a == 0 {
+                        pending = Some(b as u64);
+                    } else if site == 2000 && a == 2 {
+                        if let Some(v) = pending.take() {
+                            pushed_done.push(v);
+                        }
+                    }
+                }
+            }
+        }
+        if !res.truncated && !res.panicked.iter().any(|&p| p) {
+            for v in &pushed_done {
+                if !popped.contains(v) && !left.contains(v) {
+                    monitor.push(format!("PROPFAIL C17 value {} was pushed (the push completed) but no pop returned it and it is not in the queue at the end: lost element", v));
+                }
+            }
+            for v in &left {
+                if popped.contains(v) {
+                    monitor.push(format!("PROPFAIL C17 value {} was returned by a pop and is still in the queue at the end", v));
+                }
+            }
+        }
+    }
     if res.panicked.iter().any(|&p| p) {
         monitor.push("PROPFAIL C17 a model thread panicked".to_string());
     }
